@@ -82,7 +82,7 @@ func (s *SqlBitSetAnd) String(ctx *sql.Ctx, options ...int) (string, error) {
 		if err != nil {
 			return "", err
 		}
-		strConditions[i] = fmt.Sprintf("bitShiftLeft(%s, %d)", strConditions[i], i)
+		strConditions[i] = fmt.Sprintf("bitShiftLeft(toUInt64(%s), %d)", strConditions[i], i)
 	}
 	return fmt.Sprintf("groupBitOr(%s)", strings.Join(strConditions, " + ")), nil
 }
